@@ -11,7 +11,7 @@ CFG = dict(
                'effect marks, copy of strip_comments/join_continuation_lines). The Gallina model is hand-written; its agreement with the Rust code is checked '
                'by correspondence, not proved. _refuted lemmas document the pinned behaviour repaired by the fix commit.',
     technique='Coq proof (induction over program lines, invariant on the set of possibly-current KGs) over translator-regenerated decision tables + differential correspondence with Handler::execute_program',
-    bin='c27', n_quick=450, n_thorough=6000,
+    bin='c27', n_quick=450, n_thorough=2250,
     corr_name='Model/HandlerAuth.v (handle) vs Handler::execute_program',
     rule='hand-written corpus (witnesses of DESIGN §9 row 22 and of failed switches) then generated programs of 1-6 statements (inserts, deletes, persistent/session rules, '
          'schema decls, facts, queries, updates, ~25 meta commands, .kg use/create/drop over existing, missing and internal names, directly handled session/user/apikey/acl '
